@@ -2,7 +2,7 @@ from checks import rapid, plain, fuzz, REPLAY
 
 CHECK = dict(
     pkg="c09", level="exploration",
-    rule="round trip: image graph (imggen, as C03) x source (registry model / OCI layout) x gzip x export-ref override x source ref (tag / tag+digest) x target "
+    rule="round trip: image graph (imggen, as C03, incl. OCI manifests without the optional mediaType field) x source (registry model / OCI layout) x gzip x export-ref override x source ref (tag / tag+digest) x target "
          "(registry model, rejecting manifests with absent references or not / OCI layout) x target pre-state (empty / partial / stale tag) x 0-3 metamorphic archive "
          "variants (entry order, ./ prefix, dropped directory members, members replaced by symlinks / hard links / symlink chains to a moved copy in three placements, "
          "unrelated extra members, outer gzip, two-image archive with selection by name / tag / digest). Docker: harness-built legacy / content-addressed / OCI-flavoured "
